@@ -151,8 +151,11 @@ def Router.delete (r : Router) (t : Bytes) : Except DeleteErr Nat × Router :=
       if ts.any (fun e => (Node.find r.root e.2).isNone) then (.error (.notFound t), r)
       else r.deleteOk t ts
 
+/-- what the API reports about a stored value and the collected parameters -/
+def toMatch (x : Info × Params) : Match := ⟨x.1.template, x.1.expanded, x.1.data, x.2⟩
+
 def Router.search (env : Env) (r : Router) (path : Bytes) : Option Match :=
-  (Node.search env r.root path []).map (fun (i, ps) => ⟨i.template, i.expanded, i.data, ps⟩)
+  (Node.search env r.root path []).map toMatch
 
 def Router.display (r : Router) : String := Node.display r.root
 
